@@ -16,7 +16,6 @@ import (
 	"strings"
 	"sync"
 	"time"
-	"unsafe"
 
 	"github.com/btcsuite/btcd/btcutil/v2"
 	"github.com/btcsuite/btcd/chainhash/v2"
@@ -47,7 +46,6 @@ func (P) Facts() []core.Fact {
 	add("MaxBlockPayload", wire.MaxBlockPayload)
 	add("MaxInvPerMsg", wire.MaxInvPerMsg)
 	add("MaxBlockHeadersPerMsg", wire.MaxBlockHeadersPerMsg)
-	add("MaxBlockHeaderPayload", wire.MaxBlockHeaderPayload)
 	add("MaxBlockLocatorsPerMsg", wire.MaxBlockLocatorsPerMsg)
 	add("MaxAddrPerMsg", wire.MaxAddrPerMsg)
 	add("MaxV2AddrPerMsg", wire.MaxV2AddrPerMsg)
@@ -57,7 +55,6 @@ func (P) Facts() []core.Fact {
 	add("MaxFilterAddDataSize", wire.MaxFilterAddDataSize)
 	add("MaxCFilterDataSize", wire.MaxCFilterDataSize)
 	add("MaxCFHeadersPerMsg", wire.MaxCFHeadersPerMsg)
-	add("MinTxOutPayload", wire.MinTxOutPayload)
 	add("MultipleAddressVersion", int64(wire.MultipleAddressVersion))
 	add("NetAddressTimeVersion", int64(wire.NetAddressTimeVersion))
 	add("BIP0031Version", int64(wire.BIP0031Version))
@@ -71,18 +68,6 @@ func (P) Facts() []core.Fact {
 	add("ProtocolVersion", int64(wire.ProtocolVersion))
 	add("TxFlagMarker", wire.TxFlagMarker)
 	add("WitnessFlag", int64(wire.WitnessFlag))
-	add("InvWitnessFlag", wire.InvWitnessFlag)
-	// element sizes the allocation model charges per accepted count (64-bit build)
-	add("sizeofTxIn", int64(unsafe.Sizeof(wire.TxIn{})))
-	add("sizeofTxOut", int64(unsafe.Sizeof(wire.TxOut{})))
-	add("sizeofMsgTx", int64(unsafe.Sizeof(wire.MsgTx{})))
-	add("sizeofInvVect", int64(unsafe.Sizeof(wire.InvVect{})))
-	add("sizeofBlockHeader", int64(unsafe.Sizeof(wire.BlockHeader{})))
-	add("sizeofNetAddress", int64(unsafe.Sizeof(wire.NetAddress{})))
-	add("sizeofNetAddressV2", int64(unsafe.Sizeof(wire.NetAddressV2{})))
-	add("sizeofHash", int64(unsafe.Sizeof(chainhash.Hash{})))
-	add("sizeofSlice", int64(unsafe.Sizeof([]byte{})))
-	add("sizeofPointer", int64(unsafe.Sizeof(&wire.TxIn{})))
 	v2ids, v2cmds := wire.VerifV2Table()
 	fs = append(fs, core.Fact{Name: "v2Ids", Value: v2ids}, core.Fact{Name: "v2Commands", Value: v2cmds})
 	// command strings, in the order of the driver's table
@@ -649,7 +634,11 @@ func execBlk(ctor string, raw []byte, ops []string) string {
 			h := bl.Hash()
 			out = append(out, "H="+hex.EncodeToString(h[:]))
 		case op == "G":
-			out = append(out, fmt.Sprintf("G=%d", bl.Height()))
+			if bl.Height() == btcutil.BlockHeightUnknown {
+				out = append(out, "G=unknown")
+			} else {
+				out = append(out, fmt.Sprintf("G=%d", bl.Height()))
+			}
 		case op == "L":
 			locs, err := bl.TxLoc()
 			if err != nil {
@@ -733,7 +722,11 @@ func execUtx(ctor string, raw []byte, ops []string) string {
 		case op == "X":
 			out = append(out, "X="+b01(t.HasWitness()))
 		case op == "I":
-			out = append(out, fmt.Sprintf("I=%d", t.Index()))
+			if t.Index() == btcutil.TxIndexUnknown {
+				out = append(out, "I=unknown")
+			} else {
+				out = append(out, fmt.Sprintf("I=%d", t.Index()))
+			}
 		case op == "M":
 			var w bytes.Buffer
 			if err := t.MsgTx().Serialize(&w); err != nil {
